@@ -53,6 +53,16 @@ fn sum_diff(balance_obs: &str, utxo_sum: u64) -> String {
     }
 }
 
+/// C03: how many of the heights below the stable height have a block on record in the stable header
+/// store (`k/k` is the property: the block recorded at a stable height exists and never changes)
+pub fn recorded() -> String {
+    can::with_state(|s| {
+        let n = s.utxos.next_height();
+        let have = (0..n).filter(|h| s.stable_block_headers.block_heights.get(h).is_some()).count();
+        format!("recorded={}/{}", have, n)
+    })
+}
+
 pub fn sync_alive(case: &mut Case) {
     let hashes = can::with_state(can::state::get_block_hashes);
     case.alive = hashes
@@ -342,7 +352,7 @@ pub fn run_case(out: &mut Out, rng: &mut Rng, thorough: bool, case_no: u64) {
                 });
                 let k = (after_height - before_height) as usize;
                 let onchain = served.get(k).map(|h| *h == root).unwrap_or(false);
-                out.emit("c advance", &format!("popped={} onchain={} pending={}", k, onchain as u8, (pending && obs != "paused") as u8));
+                out.emit("c advance", &format!("popped={} onchain={} pending={} {}", k, onchain as u8, (pending && obs != "paused") as u8, recorded()));
                 if k > 0 { out.count("advance:popped>0"); }
             }
             paused = obs == "paused";
@@ -422,7 +432,7 @@ pub fn run_many_outputs_case(out: &mut Out, rng: &mut Rng) {
         out.emit(&format!("c ingest {}", c::UNLIMITED), &c::ingest(c::UNLIMITED));
         let (h, root, pending) = can::with_state(|s| (s.stable_height(), hex::encode(can::state::get_block_hashes(s)[0].as_bytes()), s.unstable_blocks.verif_stable_child().is_some()));
         let k = (h - before) as usize;
-        out.emit("c advance", &format!("popped={} onchain={} pending={}", k, served.get(k).map(|x| *x == root).unwrap_or(false) as u8, pending as u8));
+        out.emit("c advance", &format!("popped={} onchain={} pending={} {}", k, served.get(k).map(|x| *x == root).unwrap_or(false) as u8, pending as u8, recorded()));
     };
     tip = push(out, &mut case, rng, tip, &plain);
     // block 2 carries one transaction with 300 outputs to pool address 0 (a P2PKH address)
@@ -489,7 +499,7 @@ pub fn run_slices_case(out: &mut Out, rng: &mut Rng) {
             (s.stable_height(), hex::encode(can::state::get_block_hashes(s)[0].as_bytes()), s.unstable_blocks.verif_stable_child().is_some())
         });
         let k = (after_height - before_height) as usize;
-        out.emit("c advance", &format!("popped={} onchain={} pending={}", k, served.get(k).map(|h| *h == root).unwrap_or(false) as u8, (pending && obs != "paused") as u8));
+        out.emit("c advance", &format!("popped={} onchain={} pending={} {}", k, served.get(k).map(|h| *h == root).unwrap_or(false) as u8, (pending && obs != "paused") as u8, recorded()));
         paused = obs == "paused";
         if paused && c::stable_height() != before_height { case.pre_ingest = None; }
         if paused {
@@ -545,7 +555,7 @@ pub fn run_depth_bound_case(out: &mut Out, rng: &mut Rng, thorough: bool) {
         if obs == "trap" { return false; }
         let (h, root, pending) = can::with_state(|s| (s.stable_height(), hex::encode(can::state::get_block_hashes(s)[0].as_bytes()), s.unstable_blocks.verif_stable_child().is_some()));
         let k = (h - before) as usize;
-        out.emit("c advance", &format!("popped={} onchain={} pending={}", k, served.get(k).map(|x| *x == root).unwrap_or(false) as u8, pending as u8));
+        out.emit("c advance", &format!("popped={} onchain={} pending={} {}", k, served.get(k).map(|x| *x == root).unwrap_or(false) as u8, pending as u8, recorded()));
         true
     };
     // the genesis block has difficulty as mocked by World (1): put a heavy anchor candidate on top
